@@ -1694,17 +1694,40 @@ func (a *absint) provePhiEdges(x, y Term, at ssa.Instruction, depth int, strict 
 }
 
 // provePhiLenEdges: the dual for a merged slice on the right: k ≤ len(phi(s1, s2, …)) holds
-// when k ≤ len(si) holds on every live incoming edge (k a constant).
+// when k ≤ len(si) holds on every live incoming edge (k a constant, or a value defined before
+// the branches that merge in the phi).
 func (a *absint) provePhiLenEdges(x, y Term, depth int) (bool, string) {
 	if !y.Len || x.Len || depth <= 0 {
-		return false, ""
-	}
-	if _, isK := constInt(x.V); !isK {
 		return false, ""
 	}
 	phi, ok := stripIface(y.V).(*ssa.Phi)
 	if !ok || a.phiProof[phi] {
 		return false, ""
+	}
+	if _, isK := constInt(x.V); !isK {
+		// a value computed before the branches that merge here (the size the buffer was grown
+		// to on one of them): it means the same on every incoming edge
+		switch xv := x.V.(type) {
+		case *ssa.Parameter:
+		case ssa.Instruction:
+			if xv.Block() == nil || xv.Parent() != phi.Parent() {
+				return false, ""
+			}
+			for i := range phi.Edges {
+				pred := phi.Block().Preds[i]
+				if a.deadPhiEdge(phi, i) {
+					continue
+				}
+				if !xv.Block().Dominates(pred) {
+					return false, ""
+				}
+			}
+			if _, isPhi := x.V.(*ssa.Phi); isPhi && xv.Block() == phi.Block() {
+				return false, ""
+			}
+		default:
+			return false, ""
+		}
 	}
 	if a.phiProof == nil {
 		a.phiProof = map[*ssa.Phi]bool{}
